@@ -193,10 +193,10 @@ func blankOf(v reflect.Value) bool {
 		return strings.TrimSpace(v.String()) == ""
 	case reflect.Pointer:
 		return !v.IsNil() && blankOf(v.Elem())
-	case reflect.Struct: // first exported string field: Name / ID / URL
-		for i := 0; i < v.NumField(); i++ {
-			if v.Type().Field(i).IsExported() && v.Field(i).Kind() == reflect.String {
-				return strings.TrimSpace(v.Field(i).String()) == ""
+	case reflect.Struct: // the identifying string of a list element: Name / ID / URL / Path
+		for _, name := range []string{"Name", "ID", "URL", "Path"} {
+			if f := v.FieldByName(name); f.IsValid() && f.Kind() == reflect.String {
+				return strings.TrimSpace(f.String()) == ""
 			}
 		}
 	}
